@@ -17,7 +17,8 @@ RULE = ("Hypothesis-generated topology programs (both flavours) in which fault c
         "missing mandatory arguments, services whose k-th interface is bad (already connected / not owned by a node / "
         "a ServicePort / not in the model / SharedPort on L2PTP), port-mirror onto a connected port, add_link with a "
         "missing k-th interface, sub-interfaces with duplicate/missing VLAN or a parent without local name, "
-        "multi-interface facility/switch with a bad j-th port, connect twice. Oracle: after ANY raising call the "
+        "multi-interface facility/switch with a bad j-th port, connect twice, calls through handles of elements "
+        "removed in the meantime. Oracle: after ANY raising call the "
         "model snapshot (nodes, properties, edges) and a bystander graph equal the pre-call snapshot. Non-trivial: a "
         "raising call whose rejected argument is not the first thing the call examines (k>=2, a bad property among "
         ">=2, or a compound call). Distinct by hash of the case.")
@@ -146,6 +147,11 @@ def _fault_op(flavour):
         st.builds(lambda kind, k, h: {"op": "unset_prop", "kind": kind, "k": k, "pname": "name", "h": h},
                   S(["node", "component", "service", "interface", "link"]), _k, _h),
         st.fixed_dictionaries({"op": st.just("remove_node"), "k": st.just(0), "h": _h, "missing": st.just(True)}),
+        # a call through a handle kept for an element that was removed in the meantime
+        st.fixed_dictionaries({"op": st.just("stale_call"), "k": _k, "if": _k,
+                               "what": S(["connect", "connect", "add_interface", "add_component", "node_service"])}),
+        st.fixed_dictionaries({"op": st.just("stale_call"), "k": _k, "if": _k,
+                               "what": S(["connect", "connect", "add_interface", "add_component", "node_service"])}),
     ]
     if flavour == "experiment":
         ops += [
@@ -173,7 +179,9 @@ def _fault_op(flavour):
 @st.composite
 def _case(draw, tier):
     flavour = draw(st.sampled_from(["experiment", "experiment", "substrate"]))
-    build = topo.any_op(flavour, removals=True, weights={"validate": 0, "serialize_load": 0, "prune": 0, "rename": 1})
+    build = topo.any_op(flavour, removals=True, weights={"validate": 0, "serialize_load": 0, "prune": 0, "rename": 1,
+                                                         "remove_service": 4, "remove_node": 3, "remove_component": 2,
+                                                         "add_service": 10})
     pre = draw(topo.program(flavour, max_ops=6, min_ops=2, removals=False, weights={"validate": 0, "serialize_load": 0, "prune": 0}))
     n = draw(st.integers(6, 40 if tier == "thorough" else 24))
     ops = []
@@ -201,7 +209,7 @@ def _late_fault(op):
         return len(props) >= 2
     if k == "add_component":
         return "if_ids_delta" in op or op.get("how") in ("mismatch",) or "model_lit" in op
-    if k == "add_child":
+    if k in ("add_child", "stale_call"):
         return True
     return False
 
